@@ -118,6 +118,8 @@ pub enum Mutation {
   NoTrailingNewline,
   Truncate,
   SwapTokens,
+  LongLine,
+  LoneCr,
 }
 
 pub const MUTATIONS: &[Mutation] = &[
@@ -128,6 +130,8 @@ pub const MUTATIONS: &[Mutation] = &[
   Mutation::NoTrailingNewline,
   Mutation::Truncate,
   Mutation::SwapTokens,
+  Mutation::LongLine,
+  Mutation::LoneCr,
 ];
 
 pub fn mutate(src: &str, m: Mutation, rng: &mut Rng) -> String {
@@ -154,6 +158,26 @@ pub fn mutate(src: &str, m: Mutation, rng: &mut Rng) -> String {
       format!("{}{}{}", &src[..at], ins, &src[at..])
     }
     Mutation::Crlf => src.replace('\n', "\r\n"),
+    // one very long line (minified file) with multi-byte characters early on it
+    Mutation::LongLine => {
+      // a prefix of the file is enough: positions on one long line cost O(length) each
+      let mut cut = src.len().min(1500);
+      while !src.is_char_boundary(cut) {
+        cut -= 1;
+      }
+      let base = src[..cut].replace('\n', " ");
+      let mut one: String = format!("é日本🦀 {base}");
+      while one.len() < 4400 && !base.trim().is_empty() {
+        one = format!("{one} {base}");
+      }
+      one
+    }
+    // a lone carriage return in the middle of a line is not a line break
+    Mutation::LoneCr => {
+      let bs = char_boundaries(src);
+      let at = bs[rng.below(bs.len())];
+      format!("{}\r{}", &src[..at], &src[at..])
+    }
     Mutation::NoTrailingNewline => src.trim_end_matches('\n').to_string(),
     Mutation::Truncate => {
       let bs = char_boundaries(src);
